@@ -283,6 +283,8 @@ class Check:
                     changed += [t.gen_vdist("alpha"), t.gen_vdist("beta")]
                 elif self.pid == "C05":
                     changed += [t.gen_background()]
+                    # the decision of get_default_metric_for_input_data (C05_source_default_metric)
+                    changed += [body_translator(t.gen_default_metric)]
                 else:
                     changed += [t.gen_constants()]
                     # which exceptions isvalidaa / isvalidcdr3 catch, which positions and letters isvalidcdr3 tests (C18_source_cdr3_*)
